@@ -364,6 +364,14 @@ pub fn run_c17(cx: &Cx) -> PropResult {
         }
         let strat = case_strategy();
         drive(tag_seed(derive_seed(cx.seed, cx.prop, shard as u64, 0), 0), &strat, per_shard, acc, &|c: &EncCase| to_json(c), &mut |c, a, r| check_c17(c, a, r));
+        if shard == 1 % cx.shards {
+            // a text of exactly 2^31 bytes (the first length that does not fit the format's 31-bit count) and one byte
+            // less, as &str over untouched zeroed memory, counted by the size calculator: nothing is copied
+            acc.case("text of 2^31 and of 2^31 - 1 bytes (&str over zeroed memory)", 7, true);
+            if let Err(e) = text_at_the_limit() {
+                acc.violation(e, json!({"special": "str 2^31"}));
+            }
+        }
         if shard == 0 && cx.tier == Tier::Thorough {
             // lengths beyond the format on real buffers: the conversion fails before a byte is touched
             let r = guarded(|| {
@@ -430,7 +438,29 @@ pub fn run_c17(cx: &Cx) -> PropResult {
     r
 }
 
+fn text_at_the_limit() -> Result<(), String> {
+    let r = guarded(|| {
+        let v = vec![0u8; 1usize << 31];
+        let s = std::str::from_utf8(&v).expect("zero bytes are text");
+        let size = |t: &str| {
+            let mut ctx = SerializationContext::new(SizeCalculator::new());
+            BinarySerializer::serialize(&t, &mut ctx).map(|_| ctx.into_output().size()).map_err(|e| vcat::errinfo(&e).kind)
+        };
+        (size(s), size(&s[..(1usize << 31) - 1]))
+    });
+    match r {
+        Ok((Err(a), Ok(n))) if a == "LengthTooLarge" && n == (1usize << 31) - 1 + 5 => Ok(()),
+        other => Err(format!("a &str of 2^31 bytes / of 2^31 - 1 bytes gives {other:?} — expected Err(LengthTooLarge) / Ok(2^31 - 1 + 5 bytes)")),
+    }
+}
+
 pub fn replay_c17(case: &Value) -> Verdict {
+    if case.get("special").and_then(|s| s.as_str()) == Some("str 2^31") {
+        return match text_at_the_limit() {
+            Ok(()) => Verdict::Pass,
+            Err(e) => Verdict::Fail(e),
+        };
+    }
     let c: EncCase = serde_json::from_value(case.clone()).expect("replay case");
     check_c17(&c, &mut Acc::new(), false)
 }
